@@ -157,6 +157,13 @@ def run_property(pid, tier="quick", replay=None, root=None, write_evidence=True)
         print("ANALYSIS-BROKEN property=%s: internal error" % pid)
         return 2
 
+    seeded_out = []
+    if tier == "thorough" and not replay and root is None:
+        try:
+            seeded_out = replay_seeded(pid, mod)
+        except AnalysisBroken as e:
+            print("ANALYSIS-BROKEN property=%s: %s" % (pid, e))
+            return 2
     known, _fixed = load_known()
     nviol = 0
     os.makedirs(os.path.join(EVID, "replay"), exist_ok=True)
@@ -220,6 +227,7 @@ def run_property(pid, tier="quick", replay=None, root=None, write_evidence=True)
                 "exhaustive": True,
                 "rules": rules_out,
                 "selftests": st,
+                "seeded_changes": seeded_out,
                 "samples": samples[:40],
                 "units": sorted(set(getattr(ctx, "units_seen", []))) or _units(ctx),
                 "notes": ctx.notes,
@@ -235,6 +243,47 @@ def run_property(pid, tier="quick", replay=None, root=None, write_evidence=True)
         pid, tier, len(results), total, nviol, len(kf_lines), time.time() - t0)
     print(("FAIL " if nviol else ("ANALYSIS-BROKEN " if status == 2 else "OK ")) + summary)
     return status
+
+
+def replay_seeded(pid, mod):
+    """Thorough tier: apply every seeded change that is recorded as detected by this
+    property to a scratch copy of /repo's sources and require the rules to report it."""
+    import shutil
+    import subprocess
+    import tempfile
+    sdir = os.path.join(VERIF, "seeded")
+    out = []
+    if not os.path.isdir(sdir):
+        return out
+    for sid in sorted(os.listdir(sdir)):
+        mp = os.path.join(sdir, sid, "meta.json")
+        if not os.path.exists(mp):
+            continue
+        meta = json.load(open(mp))
+        if pid not in (meta.get("detected_by") or {}):
+            continue
+        scratch = tempfile.mkdtemp(prefix="btv-seed-", dir=facts.CACHE)
+        try:
+            subprocess.run(["rsync", "-a", "--exclude", ".git", "--exclude", "_build", facts.REPO + "/", scratch + "/"], check=True)
+            pr = subprocess.run(["patch", "-p1", "-s", "-d", scratch, "-i", os.path.join(sdir, sid, "patch.diff")],
+                                stdout=subprocess.PIPE, stderr=subprocess.STDOUT)
+            if pr.returncode != 0:
+                out.append({"id": sid, "status": "skipped: patch no longer applies"})
+                continue
+            saved = facts.REPO
+            facts.REPO = scratch
+            try:
+                ctx2 = Ctx("quick", root=scratch)
+                res = mod.run(ctx2)
+            finally:
+                facts.REPO = saved
+            viol = [(r.rule, v.key) for r in res for v in r.violations()]
+            out.append({"id": sid, "status": "detected" if viol else "NOT DETECTED", "reports": [list(v) for v in viol[:3]]})
+            if not viol:
+                raise AnalysisBroken("seeded change %s, recorded as detected by %s, is no longer reported" % (sid, pid))
+        finally:
+            shutil.rmtree(scratch, ignore_errors=True)
+    return out
 
 
 def _units(ctx):
